@@ -12,6 +12,7 @@
 //	       fpe   func(conf) (func() (*impl, error), error)  a constructor of factories
 //	       fie   func() (func() (core.Gun, error), error)
 //	       fp    func(conf) (func() *impl, error)           factories without an error result (cannot fail)
+//	       i1    func() core.Gun                            p1   func() *impl       (cannot fail; `fact` cases)
 //	n      a failing constructor returns nil (a typed nil for the concrete shapes) instead of the half-built object
 //	f      not the constructor but the filling of its config fails at that call (shapes with conf, constructors of plugins)
 //
@@ -24,6 +25,7 @@ import (
 	"errors"
 	"fmt"
 	"reflect"
+	"strconv"
 	"strings"
 	"sync"
 	"time"
@@ -31,6 +33,7 @@ import (
 	"github.com/yandex/pandora/core"
 	"github.com/yandex/pandora/core/plugin"
 	"github.com/yandex/pandora/core/warmup"
+	"go.uber.org/zap"
 )
 
 
@@ -63,7 +66,7 @@ func parsePG(fault string) (plugPlan, bool) {
 	}
 	// "f" is also the first letter of the factory shapes: only trailing letters after the shape name are flags
 	switch sh {
-	case "ie", "pe", "cpe", "cie", "cp", "fpe", "fie", "fp":
+	case "ie", "pe", "cpe", "cie", "cp", "fpe", "fie", "fp", "i1", "p1":
 		pp.shape = sh
 		return pp, true
 	}
@@ -176,12 +179,16 @@ func isNilObj(v interface{}) bool {
 
 // plugFactory builds the pool's NewGun (what = gun; base = pm.newGun) or NewRPSSchedule (what = sched; base =
 // pm.newSchedule) through a fresh plugin registry. The returned func has the factory type the engine's config asks for.
-func plugFactory(pm *poolMocks, pp plugPlan) interface{} {
+func plugFactory(pm *poolMocks, pp plugPlan) interface{} { return plugFactoryN(pm, pp, 2) }
+
+// plugFactoryN: numOut = 2 gives the engine's factory types (wrapped so that every call is recorded), numOut = 1 the
+// raw func() Plugin factory (the `fact` cases call and record it themselves).
+func plugFactoryN(pm *poolMocks, pp plugPlan, numOut int) interface{} {
 	calls := &plugCalls{}
 	pm.plugCalls = calls
 	k := pm.plan.k
 	isGun := pp.what == "gun"
-	mayFail := !pp.fillErr && pp.shape != "cp" && pp.shape != "fp" // a constructor without an error result cannot fail
+	mayFail := !pp.fillErr && pp.shape != "cp" && pp.shape != "fp" && pp.shape != "i1" && pp.shape != "p1" // no error result: cannot fail
 	// one creation by the underlying mock factory; with the f flag the mock never fails (the config filling does)
 	create := func() (interface{}, error) {
 		var obj interface{}
@@ -245,6 +252,13 @@ func plugFactory(pm *poolMocks, pp plugPlan) interface{} {
 			ctor = func() (func() (core.Gun, error), error) { return mkI, nil }
 		case "fp":
 			ctor = func(plugConf) (func() *plugGun, error) { return func() *plugGun { o, _ := mkP(); return o }, nil }
+		case "i1":
+			ctor = func() core.Gun { o, _ := mkI(); return o }
+		case "p1":
+			ctor = func() *plugGun { o, _ := mkP(); return o }
+		}
+		if numOut == 1 {
+			factoryType = reflect.TypeOf((func() core.Gun)(nil))
 		}
 	} else {
 		pluginType = reflect.TypeOf((*core.Schedule)(nil)).Elem()
@@ -300,6 +314,9 @@ func plugFactory(pm *poolMocks, pp plugPlan) interface{} {
 	if err != nil {
 		panic(fmt.Sprintf("verif: plugin factory creation failed: %v", err))
 	}
+	if numOut == 1 {
+		return f
+	}
 	// one factory call at a time: the constructor call it makes (if any) is the one recorded with it
 	var serial sync.Mutex
 	begin := func() int {
@@ -348,4 +365,57 @@ func plugFactory(pm *poolMocks, pp plugPlan) interface{} {
 		}()
 		return inner()
 	}
+}
+
+// runFact: case `fact <numOut> <shape> <k> <calls>` -- a gun factory of the given type (numOut 2: func() (core.Gun, error),
+// 1: func() core.Gun) built by the real plugin registry from a constructor of the given shape, called <calls> times outside
+// any engine; the constructor (or its config fill) fails at call k+1. Observation: F=<c>/<f>.<c>/<f>... (see above).
+func runFact(f []string) string {
+	if len(f) != 5 {
+		return "unknown-case"
+	}
+	numOut, _ := strconv.Atoi(f[1])
+	k, _ := strconv.Atoi(f[3])
+	n, _ := strconv.Atoi(f[4])
+	pp, ok := parsePG("pg-gun-" + f[2])
+	if !ok || (numOut != 1 && numOut != 2) {
+		return "unknown-case"
+	}
+	pm := &poolMocks{plan: poolPlan{fault: "pg-gun-" + f[2], k: k, pg: pp}, rs: &runState{log: zap.NewNop()}}
+	fac := reflect.ValueOf(plugFactoryN(pm, pp, numOut))
+	var pairs []string
+	for i := 0; i < n; i++ {
+		if numOut == 2 { // the typed wrapper records the call itself
+			func() {
+				defer func() { _ = recover() }()
+				fac.Call(nil)
+			}()
+			continue
+		}
+		before := len(pm.plugCalls.ctor)
+		out := func() (res string) {
+			defer func() {
+				if rec := recover(); rec != nil {
+					res = "crash"
+					if e, ok := rec.(error); ok && (errors.Is(e, errGun) || errors.Is(e, errFillGun)) {
+						res = "perr"
+					}
+				}
+			}()
+			o := fac.Call(nil)
+			return describeOut(isNilObj(o[0].Interface()), nil)
+		}()
+		c := "-"
+		if len(pm.plugCalls.ctor) > before {
+			c = pm.plugCalls.ctor[len(pm.plugCalls.ctor)-1]
+		}
+		pairs = append(pairs, c+"/"+out)
+	}
+	if numOut == 2 {
+		return "F=" + pm.plugCalls.String()
+	}
+	if len(pairs) == 0 {
+		return "F=none"
+	}
+	return "F=" + strings.Join(pairs, ".")
 }
